@@ -1,5 +1,401 @@
 package main
 
-// crypto.go: stub sets for group elements / pairings / transcripts (algebra model). Filled in per property.
+// crypto.go: stubs for gnark-crypto's curve / pairing / hashing layer.
+//
+// Opaque model: results of group operations, pairings and hashes are fresh
+// symbolic values ("nondeterministic stubs constrained only by their documented
+// contract"); the bookkeeping part of each contract that gnark relies on (length
+// checks, sizes of marshalled values, error returns) is reproduced from
+// gnark-crypto's source. Predicates (IsInSubGroup, Equal, pairing checks) are
+// unconstrained booleans, so both outcomes are explored.
 
-func registerCryptoStubs(cfg *Config) {}
+import (
+	"fmt"
+	"go/constant"
+	"go/types"
+	"strings"
+
+	"golang.org/x/tools/go/ssa"
+)
+
+func isEccPkg(path string) bool {
+	return strings.HasPrefix(path, "github.com/consensys/gnark-crypto/ecc/") || strings.HasPrefix(path, "github.com/consensys/gnark-crypto/field/") ||
+		path == "github.com/consensys/gnark-crypto/ecc" || strings.HasPrefix(path, "github.com/consensys/gnark-crypto/fiat-shamir") ||
+		strings.HasPrefix(path, "github.com/consensys/gnark-crypto/hash") || strings.HasPrefix(path, "github.com/consensys/gnark-crypto/utils") ||
+		strings.HasPrefix(path, "github.com/consensys/gnark-crypto/kzg")
+}
+
+func pkgIntConst(in *Interp, pkgPath, name string) (int, bool) {
+	p := in.prog.ImportedPackage(pkgPath)
+	if p == nil {
+		return 0, false
+	}
+	c := p.Const(name)
+	if c == nil {
+		return 0, false
+	}
+	v, ok := constant.Int64Val(constant.ToInt(c.Value.Value))
+	return int(v), ok
+}
+
+func (in *Interp) freshBytes(n int, name string) SliceV {
+	sl := in.makeSlice(types.Typ[types.Uint8], n, n)
+	arr := sl.Obj.V.(*ArrayV)
+	for i := 0; i < n; i++ {
+		arr.E[i] = in.fresh(fmt.Sprintf("%s[%d]", name, i), BVSort(8))
+	}
+	return sl
+}
+
+// errOrNil forks: the callee reports an error, or succeeds
+func (in *Interp) errOrNil(what string) Val {
+	if in.ex.DecideFree(in, 2, "err:"+what) == 1 {
+		return in.newError(what + " failed")
+	}
+	return IfaceV{}
+}
+
+// havoc overwrites the object behind p with an arbitrary value of its type
+func (in *Interp) havoc(p Ptr, t types.Type, name string) {
+	if p.Obj == nil {
+		in.progPanic("nil pointer dereference")
+	}
+	in.store(p, in.nondetOf(t, name))
+}
+
+func resultsOf(in *Interp, fn *ssa.Function, vals ...Val) Val {
+	if len(vals) == 1 {
+		return vals[0]
+	}
+	return TupleV(vals)
+}
+
+func registerCryptoStubs(cfg *Config) {
+	cfg.extra = append(cfg.extra, cryptoStub)
+}
+
+func hashSize(in *Interp, rn *types.Named) int {
+	pkg := rn.Obj().Pkg().Path()
+	switch {
+	case pkg == "crypto/sha256":
+		return 32
+	case strings.HasSuffix(pkg, "/hash_to_field"):
+		if n, ok := pkgIntConst(in, strings.TrimSuffix(pkg, "/hash_to_field"), "Bytes"); ok {
+			return n
+		}
+	case pkg == "golang.org/x/crypto/sha3":
+		return 32
+	}
+	return 32
+}
+
+func isHashType(rn *types.Named) bool {
+	if rn == nil || rn.Obj().Pkg() == nil {
+		return false
+	}
+	pkg := rn.Obj().Pkg().Path()
+	return pkg == "crypto/sha256" || pkg == "golang.org/x/crypto/sha3" || strings.HasSuffix(pkg, "/hash_to_field")
+}
+
+func (in *Interp) newHashObj(pkgPath, typeName string) Val {
+	p := in.prog.ImportedPackage(pkgPath)
+	if p == nil {
+		panic(abort("unmodelled", "hash package not loaded: "+pkgPath))
+	}
+	t := p.Type(typeName)
+	if t == nil {
+		panic(abort("unmodelled", "hash type not found: "+pkgPath+"."+typeName))
+	}
+	obj := in.newObj(&StructV{F: []Val{}}, "hash-state")
+	return IfaceV{T: types.NewPointer(t.Type()), V: Ptr{Obj: obj}}
+}
+
+func cryptoStub(in *Interp, fn *ssa.Function, pkg, name string) StubFn {
+	rn := recvNamed(fn)
+	// ---- hash objects -------------------------------------------------------------
+	if pkg == "crypto/sha256" && name == "New" && rn == nil {
+		return func(in *Interp, fn *ssa.Function, a []Val) Val { return in.newHashObj("crypto/sha256", "digest") }
+	}
+	if strings.HasSuffix(pkg, "/hash_to_field") && name == "New" && rn == nil {
+		return func(in *Interp, fn *ssa.Function, a []Val) Val { return in.newHashObj(pkg, "wrappedHashToField") }
+	}
+	if isHashType(rn) {
+		switch name {
+		case "Write":
+			return func(in *Interp, fn *ssa.Function, a []Val) Val {
+				return TupleV{BVConst(uint64(a[1].(SliceV).Len), 64), IfaceV{}}
+			}
+		case "Sum":
+			return func(in *Interp, fn *ssa.Function, a []Val) Val {
+				b := a[1].(SliceV)
+				n := hashSize(in, rn)
+				out := in.makeSlice(types.Typ[types.Uint8], b.Len+n, b.Len+n)
+				arr := out.Obj.V.(*ArrayV)
+				for i := 0; i < b.Len; i++ {
+					arr.E[i] = in.sliceGet(b, i)
+				}
+				for i := 0; i < n; i++ {
+					arr.E[b.Len+i] = in.fresh(fmt.Sprintf("digest[%d]", i), BVSort(8))
+				}
+				return out
+			}
+		case "Reset":
+			return func(in *Interp, fn *ssa.Function, a []Val) Val { return nil }
+		case "Size":
+			return func(in *Interp, fn *ssa.Function, a []Val) Val { return BVConst(uint64(hashSize(in, rn)), 64) }
+		case "BlockSize":
+			return func(in *Interp, fn *ssa.Function, a []Val) Val { return BVConst(64, 64) }
+		}
+	}
+	// ---- math/big: opaque integers (only passed around: exponents, sizes) --------------
+	if pkg == "math/big" {
+		sig := fn.Signature
+		if rn == nil && name == "NewInt" {
+			return func(in *Interp, fn *ssa.Function, a []Val) Val {
+				et := sig.Results().At(0).Type().(*types.Pointer).Elem()
+				return Ptr{Obj: in.newObj(in.zero(et), "big.Int")}
+			}
+		}
+		if rn != nil && sig.Results().Len() == 1 && types.Identical(sig.Results().At(0).Type(), sig.Recv().Type()) {
+			return func(in *Interp, fn *ssa.Function, a []Val) Val { return a[0] }
+		}
+		return nil
+	}
+	// ---- Fiat-Shamir transcript: opaque challenges ---------------------------------------
+	if pkg == "github.com/consensys/gnark-crypto/fiat-shamir" {
+		switch name {
+		case "NewTranscript":
+			return func(in *Interp, fn *ssa.Function, a []Val) Val {
+				et := fn.Signature.Results().At(0).Type().(*types.Pointer).Elem()
+				return Ptr{Obj: in.newObj(in.zero(et), "transcript")}
+			}
+		case "Bind":
+			return func(in *Interp, fn *ssa.Function, a []Val) Val { return IfaceV{} }
+		case "ComputeChallenge":
+			return func(in *Interp, fn *ssa.Function, a []Val) Val {
+				return TupleV{in.freshBytes(32, "challenge"), IfaceV{}}
+			}
+		}
+	}
+	// ---- vectors of field elements: abstract codec contract ---------------------------
+	if rn != nil && rn.Obj().Name() == "Vector" && (isEccPkg(pkg) || isFieldPkg(pkg)) {
+		switch name {
+		case "ReadFrom", "UnmarshalBinary", "AsyncReadFrom":
+			return func(in *Interp, fn *ssa.Function, a []Val) Val {
+				// an untrusted payload decodes to a vector of arbitrary length (0..3 here) or to an error
+				vt := rn.Underlying().(*types.Slice)
+				n := in.ex.DecideFree(in, 4, "decoded-vector-len")
+				sl := in.makeSlice(vt.Elem(), n, n)
+				for i := 0; i < n; i++ {
+					in.store(in.sliceElemPtr(sl, i), in.nondetOf(vt.Elem(), "decoded"))
+				}
+				in.store(a[0].(Ptr), sl)
+				res := fn.Signature.Results()
+				if res.Len() == 2 {
+					return TupleV{in.fresh("bytesRead", BVSort(64)), in.errOrNil("Vector." + name)}
+				}
+				return in.errOrNil("Vector." + name)
+			}
+		case "WriteTo", "MarshalBinary":
+			return func(in *Interp, fn *ssa.Function, a []Val) Val {
+				if name == "WriteTo" {
+					return TupleV{in.fresh("bytesWritten", BVSort(64)), in.errOrNil("Vector.WriteTo")}
+				}
+				return TupleV{in.freshBytes(4, "vecbytes"), in.errOrNil("Vector." + name)}
+			}
+		}
+	}
+	if !isEccPkg(pkg) {
+		return nil
+	}
+	// ---- KZG: folding and batched verification (length contracts from gnark-crypto) -------
+	if strings.HasSuffix(pkg, "/kzg") && rn == nil {
+		switch name {
+		case "FoldProof":
+			return func(in *Interp, fn *ssa.Function, a []Val) Val {
+				digests := a[0].(SliceV)
+				bp := in.load(a[1].(Ptr)).(*StructV)
+				res := fn.Signature.Results()
+				var nClaimed int
+				for _, f := range bp.F {
+					if sl, ok := f.(SliceV); ok {
+						nClaimed = sl.Len
+					}
+				}
+				if digests.Len != nClaimed {
+					return TupleV{in.zero(res.At(0).Type()), in.zero(res.At(1).Type()), in.newError("number of digests is not the same as the number of polynomials")}
+				}
+				return TupleV{in.nondetOf(res.At(0).Type(), "foldedProof"), in.nondetOf(res.At(1).Type(), "foldedDigest"), in.errOrNil("kzg.FoldProof")}
+			}
+		case "BatchVerifyMultiPoints":
+			return func(in *Interp, fn *ssa.Function, a []Val) Val {
+				d, p, pt := a[0].(SliceV), a[1].(SliceV), a[2].(SliceV)
+				if d.Len != p.Len || d.Len != pt.Len {
+					return in.newError("number of digests is not the same as the number of polynomials")
+				}
+				if d.Len == 0 {
+					return in.newError("no digests")
+				}
+				return in.errOrNil("kzg.BatchVerifyMultiPoints")
+			}
+		case "Verify", "BatchVerifySinglePoint":
+			return func(in *Interp, fn *ssa.Function, a []Val) Val { return in.errOrNil("kzg." + name) }
+		}
+	}
+	if strings.HasSuffix(pkg, "/fr") && rn == nil && name == "BatchInvert" {
+		return func(in *Interp, fn *ssa.Function, a []Val) Val {
+			src := a[0].(SliceV)
+			et := fn.Signature.Results().At(0).Type().Underlying().(*types.Slice).Elem()
+			out := in.makeSlice(et, src.Len, src.Len)
+			for i := 0; i < src.Len; i++ {
+				x := in.frRead(in.sliceElemPtr(src, i))
+				in.frWrite(in.sliceElemPtr(out, i), in.cfg.Field.Inv(in, x))
+			}
+			return out
+		}
+	}
+	// field element methods are handled by the field model; only byte conversions here
+	if rn != nil {
+		if _, isElem := fieldElemWords(rn); isElem && rn.Obj().Name() == "Element" {
+			switch name {
+			case "Marshal", "Bytes":
+				return func(in *Interp, fn *ssa.Function, a []Val) Val {
+					n, ok := pkgIntConst(in, pkg, "Bytes")
+					if !ok {
+						panic(abort("unmodelled", "no Bytes constant in "+pkg))
+					}
+					if name == "Bytes" {
+						arr := &ArrayV{E: make([]Val, n)}
+						for i := range arr.E {
+							arr.E[i] = in.fresh(fmt.Sprintf("elembytes[%d]", i), BVSort(8))
+						}
+						return arr
+					}
+					return in.freshBytes(n, "elembytes")
+				}
+			case "SetBytes", "SetBytesCanonical", "SetBigInt", "SetString", "SetInterface", "Exp", "Sqrt", "Halve", "BigInt":
+				return func(in *Interp, fn *ssa.Function, a []Val) Val {
+					if name == "BigInt" {
+						return a[1]
+					}
+					in.frWrite(a[0].(Ptr), in.cfg.Field.Fresh(in, "elem."+name, wordW(in.frArr(a[0]))))
+					res := fn.Signature.Results()
+					if res.Len() == 2 {
+						return TupleV{a[0], in.errOrNil("Element." + name)}
+					}
+					return a[0]
+				}
+			}
+			return nil
+		}
+	}
+	// ---- package level functions with bookkeeping contracts -----------------------
+	if rn == nil {
+		switch name {
+		case "MillerLoop", "Pair", "PairingCheck", "MillerLoopFixedQ", "PairFixedQ", "PairingCheckFixedQ":
+			return func(in *Interp, fn *ssa.Function, a []Val) Val {
+				p, q := a[0].(SliceV), a[1].(SliceV)
+				res := fn.Signature.Results()
+				r0 := in.nondetOf(res.At(0).Type(), name)
+				if p.Len == 0 || p.Len != q.Len {
+					return TupleV{in.zero(res.At(0).Type()), in.newError("invalid inputs sizes")}
+				}
+				return TupleV{r0, in.errOrNil(name)}
+			}
+		case "FinalExponentiation":
+			return func(in *Interp, fn *ssa.Function, a []Val) Val {
+				return in.nondetOf(fn.Signature.Results().At(0).Type(), name)
+			}
+		case "Hash":
+			if strings.HasSuffix(pkg, "/fr") {
+				return func(in *Interp, fn *ssa.Function, a []Val) Val {
+					cnt := in.needInt(a[2].(*Term), "Hash count")
+					et := fn.Signature.Results().At(0).Type().Underlying().(*types.Slice).Elem()
+					sl := in.makeSlice(et, cnt, cnt)
+					for i := 0; i < cnt; i++ {
+						in.store(in.sliceElemPtr(sl, i), in.nondetOf(et, "hash"))
+					}
+					return TupleV{sl, IfaceV{}}
+				}
+			}
+		case "BatchVerifyMultiVk":
+			return func(in *Interp, fn *ssa.Function, a []Val) Val {
+				vk, com, pok := a[0].(SliceV), a[1].(SliceV), a[2].(SliceV)
+				if com.Len != vk.Len {
+					return in.newError("commitments length mismatch")
+				}
+				if vk.Len != pok.Len && pok.Len != 1 {
+					return in.newError("pok length mismatch")
+				}
+				if com.Len == 0 {
+					in.progPanic("index out of range [0] with length 0 (pedersen.BatchVerifyMultiVk reads commitments[0])")
+				}
+				return in.errOrNil("pedersen.BatchVerifyMultiVk")
+			}
+		case "One", "Modulus", "NewElement", "Generator":
+			if name == "One" && strings.HasSuffix(pkg, "/fr") {
+				return func(in *Interp, fn *ssa.Function, a []Val) Val {
+					rt := fn.Signature.Results().At(0).Type()
+					z := in.zero(rt).(*ArrayV)
+					return in.frValue(rt, in.cfg.Field.Const(1, wordW(z)))
+				}
+			}
+		}
+	}
+	// ---- group element methods ----------------------------------------------------
+	if rn != nil {
+		tn := rn.Obj().Name()
+		isGroup := tn == "G1Affine" || tn == "G2Affine" || tn == "G1Jac" || tn == "G2Jac" || tn == "G1Proj" || tn == "G2Proj" || tn == "g1JacExtended" || tn == "g2JacExtended"
+		isGT := strings.HasPrefix(tn, "E") && len(tn) <= 3 // E2, E6, E12, E24 ... (GT is an alias)
+		if isGroup || isGT {
+			switch name {
+			case "IsInSubGroup", "IsOnCurve", "IsInfinity", "Equal", "IsZero", "IsOne":
+				return func(in *Interp, fn *ssa.Function, a []Val) Val { return in.fresh(tn+"."+name, BoolSort) }
+			case "Marshal", "Bytes", "RawBytes":
+				return func(in *Interp, fn *ssa.Function, a []Val) Val {
+					cn := "SizeOf" + tn + "Uncompressed"
+					if name == "Bytes" {
+						cn = "SizeOf" + tn + "Compressed"
+					}
+					n, ok := pkgIntConst(in, pkg, cn)
+					if !ok {
+						panic(abort("unmodelled", "no size constant "+cn+" in "+pkg))
+					}
+					if name == "Marshal" {
+						return in.freshBytes(n, "pointbytes")
+					}
+					arr := &ArrayV{E: make([]Val, n)}
+					for i := range arr.E {
+						arr.E[i] = in.fresh(fmt.Sprintf("pointbytes[%d]", i), BVSort(8))
+					}
+					return arr
+				}
+			case "MultiExp":
+				return func(in *Interp, fn *ssa.Function, a []Val) Val {
+					pts, sc := a[1].(SliceV), a[2].(SliceV)
+					if pts.Len != sc.Len {
+						return TupleV{Ptr{}, in.newError("len(points) != len(scalars)")}
+					}
+					in.havoc(a[0].(Ptr), rn, tn+".MultiExp")
+					return TupleV{a[0], in.errOrNil("MultiExp")}
+				}
+			case "Fold":
+				return func(in *Interp, fn *ssa.Function, a []Val) Val {
+					in.havoc(a[0].(Ptr), rn, tn+".Fold")
+					return TupleV{a[0], in.errOrNil("Fold")}
+				}
+			case "String":
+				return func(in *Interp, fn *ssa.Function, a []Val) Val { return "<point>" }
+			}
+			// any other pointer-receiver method returning the receiver: result is an arbitrary element
+			sig := fn.Signature
+			if _, isPtr := sig.Recv().Type().(*types.Pointer); isPtr && sig.Results().Len() == 1 && types.Identical(sig.Results().At(0).Type(), sig.Recv().Type()) {
+				return func(in *Interp, fn *ssa.Function, a []Val) Val {
+					in.havoc(a[0].(Ptr), rn, tn+"."+name)
+					return a[0]
+				}
+			}
+		}
+	}
+	return nil
+}
